@@ -263,6 +263,7 @@ func cmdCheck(args []string) int {
 	items = append(items, ifaceEquivObligations(w)...)
 	for _, k := range ps.Functions {
 		items = append(items, noEffectObligations(w, k)...)
+		items = append(items, determinismObligations(w, k)...)
 	}
 	if len(items) == 0 && len(ps.Bounded) == 0 && len(stale) == 0 {
 		return internalErr("no obligations generated for %s", id)
@@ -843,6 +844,53 @@ func ifaceEquivObligations(w *World) []*workItem {
 			o.Model = fmt.Sprintf("%s and %s do not have the same method set", pr[0], pr[1])
 		}
 		out = append(out, &workItem{o: o})
+	}
+	return out
+}
+
+// determinismObligations: a function marked `deterministic` does not range over a Go map and calls no
+// source of time or randomness (frame:det, decided by scanning its SSA body).
+func determinismObligations(w *World, key string) []*workItem {
+	fn := w.FnByKey[key]
+	if fn == nil {
+		return nil
+	}
+	var out []*workItem
+	for _, fc := range w.contractsFor(key) {
+		if !fc.Deterministic {
+			continue
+		}
+		var bad []string
+		for _, b := range fn.Blocks {
+			for _, ins := range b.Instrs {
+				switch v := ins.(type) {
+				case *ssa.Range:
+					if _, isMap := v.X.Type().Underlying().(*types.Map); isMap {
+						bad = append(bad, "range over a Go map at "+w.Prog.Fset.Position(v.Pos()).String())
+					}
+				case *ssa.Call:
+					if f, ok := v.Common().Value.(*ssa.Function); ok {
+						k := fnKey(f)
+						if strings.HasPrefix(k, "time.") || strings.HasPrefix(k, "rand.") || strings.HasPrefix(k, "maps.Keys") || strings.HasPrefix(k, "maps.Values") {
+							if !(strings.HasPrefix(k, "maps.")) {
+								bad = append(bad, "call to "+k+" at "+w.Prog.Fset.Position(v.Pos()).String())
+							}
+						}
+					}
+				case *ssa.Convert:
+					if _, isPtr := v.X.Type().Underlying().(*types.Pointer); isPtr && isInt(v.Type()) {
+						bad = append(bad, "pointer converted to an integer at "+w.Prog.Fset.Position(v.Pos()).String())
+					}
+				}
+			}
+		}
+		name := key + "#frame:det"
+		o := &Obligation{Fn: key, Kind: "frame:det", Name: name, Group: name, Static: true, StaticOK: len(bad) == 0, Src: "deterministic"}
+		if len(bad) > 0 {
+			o.Model = strings.Join(bad, "; ")
+		}
+		out = append(out, &workItem{o: o})
+		break
 	}
 	return out
 }
